@@ -1,7 +1,7 @@
 from vlib.core import Plan
-from harness.C20.x86_plan import x86_queries
+from harness.C03.x86_plan import x86_queries
 try:
-    from harness.C20.base_plan import base_queries
+    from harness.C03.base_plan import base_queries
 except Exception:  # base half not present yet
     base_queries = None
 
@@ -17,5 +17,5 @@ def plan(tier, ctx):
         stubs += bi.get("stubs", [])
         ass += bi.get("assumptions", [])
         outside += bi.get("outside", [])
-    return Plan("C20", "model_checking", qs, engine="x86sym + cbmc-c", functions_encoded=fe, bounds=bounds, stubs=stubs,
+    return Plan("C03", "translation_validation", qs, engine="x86sym + cbmc-c", functions_encoded=fe, bounds=bounds, stubs=stubs,
                 assumptions=ass, outside=outside, trusted_base=["vlib/x86sym instruction semantics", "z3", "cbmc", "nasm/ld/objdump"])
